@@ -61,13 +61,101 @@ Proof.
   intros _. apply (flow_at_nfl P t f c env fl Ef).
 Qed.
 
-(* ------------------------------------------------------------------ wf_program, once more *)
-Lemma wf_order P : wf_program P = true ->
+(* ------------------------------------------------------------------ wf_program_fm *)
+(* wf_program implies wf_program_fm (exactly one active input => at least one) *)
+Lemma data_inputs_ok_fm G L f : data_inputs_ok G L f = true -> data_inputs_fm G L f = true.
+Proof.
+  unfold data_inputs_ok, data_inputs_fm. destruct (is_ctl f); [auto|].
+  destruct (has_inputs f); [|auto]. intros H. apply Nat.eqb_eq in H. rewrite H. reflexivity.
+Qed.
+
+Lemma task_ok_fm_of P ids t : task_ok P ids t = true -> task_ok_fm P ids t = true.
+Proof.
+  unfold task_ok, task_ok_fm. destruct (env_of P t) as [[c env]|]; [|auto]. intros H.
+  repeat (apply andb_true_iff in H; destruct H as [H ?]).
+  repeat (apply andb_true_iff; split); try assumption.
+  rewrite forallb_forall in *. intros f Hf. apply data_inputs_ok_fm. apply H; assumption.
+Qed.
+
+Theorem wf_program_implies_fm P : wf_program P = true -> wf_program_fm P = true.
+Proof.
+  unfold wf_program, wf_program_fm. intros H.
+  apply andb_true_iff in H. destruct H as [H H4].
+  apply andb_true_iff in H. destruct H as [H H3].
+  apply andb_true_iff in H. destruct H as [H1 H2].
+  apply andb_true_iff. split; [|exact H4].
+  apply andb_true_iff. split; [|].
+  - apply andb_true_iff. split; assumption.
+  - rewrite forallb_forall in *. intros t Ht. apply task_ok_fm_of. auto.
+Qed.
+
+(* the facts the engines need (as PTGProofs.wf_unpack / wf_engine, for wf_program_fm) *)
+Lemma wf_fm_unpack P : wf_program_fm P = true ->
+  NoDup (instances P)
+  /\ (forall t, In t (instances P) -> forall p, In p (preds P t) ->
+        In p (instances P) /\ count t (succs P p) = count p (preds P t))
+  /\ (forall t, In t (instances P) -> forall s, In s (succs P t) ->
+        In s (instances P) /\ count t (preds P s) = count s (succs P t))
+  /\ (forall t p, In t (instances P) -> In p (preds P t) -> (ptg_rank P p < ptg_rank P t)%nat).
+Proof.
+  unfold wf_program_fm. intros H.
+  repeat (apply andb_true_iff in H; destruct H as [H ?]).
+  rename H2 into Hnd, H1 into Htask.
+  apply andb_true_iff in H0. destruct H0 as [H0 Hord].
+  apply andb_true_iff in H0. destruct H0 as [Hlen Hmem].
+  assert (Htask' : forall t, In t (instances P) -> task_ok_fm P (instances P) t = true)
+    by (apply forallb_forall; assumption).
+  split; [apply nodupb_NoDup; assumption|].
+  split; [|split].
+  - intros t Ht p Hp. specialize (Htask' t Ht). unfold task_ok_fm in Htask'.
+    destruct (env_of P t) as [[c env]|]; [|discriminate].
+    repeat (apply andb_true_iff in Htask'; destruct Htask' as [Htask' ?]).
+    rename H1 into Hpr.
+    rewrite forallb_forall in Hpr. specialize (Hpr p Hp).
+    apply andb_true_iff in Hpr. destruct Hpr as [Hm Hc].
+    split; [apply mem_In; assumption|apply Nat.eqb_eq; assumption].
+  - intros t Ht s Hs. specialize (Htask' t Ht). unfold task_ok_fm in Htask'.
+    destruct (env_of P t) as [[c env]|]; [|discriminate].
+    repeat (apply andb_true_iff in Htask'; destruct Htask' as [Htask' ?]).
+    rename H0 into Hsu.
+    rewrite forallb_forall in Hsu. specialize (Hsu s Hs).
+    apply andb_true_iff in Hsu. destruct Hsu as [Hm Hc].
+    split; [apply mem_In; assumption|apply Nat.eqb_eq; assumption].
+  - intros t p Ht Hp. unfold ptg_rank.
+    rewrite forallb_forall in Hmem. specialize (Hmem t Ht). apply mem_In in Hmem.
+    destruct (in_split_first t _ Hmem) as (l1 & l2 & Heq & Hn).
+    destruct (check_order_prefix P _ [] Hord l1 t l2 Heq p Hp) as [Hin|[]].
+    rewrite Heq. rewrite (findex_first t l1 l2 Hn). apply findex_lt. assumption.
+Qed.
+
+Lemma wf_fm_engine P : wf_program_fm P = true ->
+  NoDup (instances P)
+  /\ (forall p t, In p (instances P) -> In t (instances P) ->
+        count_occ tid_eq_dec (succs P p) t = count_occ tid_eq_dec (preds P t) p)
+  /\ (forall p s, In p (instances P) -> In s (succs P p) -> In s (instances P))
+  /\ (forall t p, In t (instances P) -> In p (preds P t) -> In p (instances P))
+  /\ (forall t p, In t (instances P) -> In p (preds P t) -> (ptg_rank P p < ptg_rank P t)%nat).
+Proof.
+  intros H. destruct (wf_fm_unpack P H) as (Hnd & Hpr & Hsu & Hrk).
+  split; [assumption|]. split; [|split; [|split]].
+  - intros p t Hp Ht. rewrite <- !count_count_occ.
+    destruct (in_dec tid_eq_dec p (preds P t)) as [Hin|Hnin].
+    + apply (Hpr t Ht p Hin).
+    + rewrite (count_zero_notin p _ Hnin).
+      destruct (in_dec tid_eq_dec t (succs P p)) as [Hin2|Hnin2]; [|apply count_zero_notin; assumption].
+      destruct (Hsu p Hp t Hin2) as [_ Hc]. rewrite (count_zero_notin p _ Hnin) in Hc.
+      pose proof (count_pos_in t _ Hin2). lia.
+  - intros p s Hp Hs. apply (Hsu p Hp s Hs).
+  - intros t p Ht Hp. apply (Hpr t Ht p Hp).
+  - assumption.
+Qed.
+
+Lemma wf_order P : wf_program_fm P = true ->
   length (topo_order P) = length (instances P)
   /\ (forall t, In t (instances P) -> In t (topo_order P))
   /\ (forall l1 t l2, topo_order P = l1 ++ t :: l2 -> forall p, In p (preds P t) -> In p l1).
 Proof.
-  unfold wf_program. intros H.
+  unfold wf_program_fm. intros H.
   repeat (apply andb_true_iff in H; destruct H as [H ?]).
   apply andb_true_iff in H0. destruct H0 as [H0 Hord].
   apply andb_true_iff in H0. destruct H0 as [Hlen Hmem].
@@ -80,7 +168,7 @@ Qed.
 Lemma findex_le t l : (findex t l <= length l)%nat.
 Proof. induction l as [|x l IH]; cbn [findex length]; [lia|]. destruct (tid_eq_dec t x); lia. Qed.
 
-Lemma rank_lt_fuel P t : wf_program P = true -> (ptg_rank P t < bfuel P)%nat.
+Lemma rank_lt_fuel P t : wf_program_fm P = true -> (ptg_rank P t < bfuel P)%nat.
 Proof.
   intros H. destruct (wf_order P H) as (Hl & _ & _). unfold ptg_rank, bfuel.
   pose proof (findex_le t (topo_order P)). lia.
@@ -89,13 +177,13 @@ Qed.
 Section PerProgram.
   Variable names : list (list Z).
   Variable P : program.
-  Hypothesis H_wf : wf_program P = true.
+  Hypothesis H_wf : wf_program_fm P = true.
 
-  Let Hnd := proj1 (wf_engine P H_wf).
-  Let Hconv := proj1 (proj2 (wf_engine P H_wf)).
-  Let Hsucc := proj1 (proj2 (proj2 (wf_engine P H_wf))).
-  Let Hpred := proj1 (proj2 (proj2 (proj2 (wf_engine P H_wf)))).
-  Let Hrank := proj2 (proj2 (proj2 (proj2 (wf_engine P H_wf)))).
+  Let Hnd := proj1 (wf_fm_engine P H_wf).
+  Let Hconv := proj1 (proj2 (wf_fm_engine P H_wf)).
+  Let Hsucc := proj1 (proj2 (proj2 (wf_fm_engine P H_wf))).
+  Let Hpred := proj1 (proj2 (proj2 (proj2 (wf_fm_engine P H_wf)))).
+  Let Hrank := proj2 (proj2 (proj2 (proj2 (wf_fm_engine P H_wf)))).
   Let Hsrc : forall t f p fp, In t (instances P) -> flow_src P t f = STask p fp -> In p (preds P t)
     := fun t f p fp _ H => ptg_src_pred P t f p fp H.
 
@@ -232,6 +320,10 @@ Section PerProgram.
                           (flow_reads P) (flow_writes P) (flow_wbs P) (ptg_F names P) ptg_D0 ptg_U0 (ptg_rank P)).
 
   (* the dependency part of any run is a run of C01's engine *)
+  Theorem ptgval_begin_after_preds evs l1 l2 t :
+    log tid (ptg_run P evs) = l2 ++ LBegin t :: l1 -> forall p, In p (preds P t) -> In (LEnd p) l1.
+  Proof. apply (begin_after_preds_ended tid tid_eq_dec (instances P) (preds P) (succs P) Hconv Hsucc). Qed.
+
   Theorem ptgval_core evs : core tid (ptg_vrun names P evs) = ptg_run P (core_events tid evs).
   Proof. apply core_vrun. Qed.
 
